@@ -263,9 +263,73 @@ def run_canon(desc):
         harness.rmtree(base)
 
 
+# --- (a') idempotence with the ebuild profiles -------------------------------
+
+@st.composite
+def prof_case(draw):
+    import repogen
+    r = draw(repogen.repo())
+    return {'repo': r,
+            'profile': draw(st.sampled_from(['ebuild', 'old-ebuild'])),
+            'hashes': draw(st.sampled_from([None, None, 'MD5', 'SHA256'])),
+            'watermark': draw(st.sampled_from([None, None, 0, 64, 1024])),
+            'edits': draw(repogen.repo_edits(r, max_ops=3))}
+
+
+def strat_prof(tier):
+    return prof_case()
+
+
+def run_prof(desc):
+    import repogen
+    root = harness.fresh_dir('c12p')
+    try:
+        repogen.materialize(desc['repo'], root)
+        opts = ['-p', desc['profile']]
+        if desc['hashes']:
+            opts += ['--hashes', desc['hashes']]
+        if desc['watermark'] is not None:
+            opts += ['-c', str(desc['watermark'])]
+        classes = ['profile:' + desc['profile']]
+        oc, rec, _ = gem.cli(['create'] + opts + [root])
+        if oc.kind != 'return' or oc.value != 0:
+            return ok(classes=classes + ['create-failed'])
+        steps = [('after create', [])]
+        if desc['edits']:
+            steps.append(('after edits + update', desc['edits']))
+        for label, edits in steps:
+            if edits:
+                repogen.apply_edits(root, edits)
+                oc, rec, _ = gem.cli(['update'] + opts + [root])
+                if oc.kind != 'return' or oc.value != 0:
+                    return ok(classes=classes + ['update-failed'])
+            mid = fsnap.snapshot(root)
+            oc, rec, _ = gem.cli(['update'] + opts + [root])
+            if oc.kind != 'return' or oc.value != 0:
+                return violation(
+                    f'{label}: a second `gemato update {" ".join(opts)}` on '
+                    f'the unchanged repository fails: {oc.describe()} '
+                    f'{[r.getMessage()[:150] for r in gem.error_records(rec)]}',
+                    sig='second-update-failed:' + (buckets.signature(oc.exc)
+                                                   if oc.exc else 'exit'),
+                    classes=classes)
+            d = fsnap.diff(mid, fsnap.snapshot(root))
+            if not fsnap.is_empty(d):
+                return violation(
+                    f'{label}: `gemato update {" ".join(opts)}` on the '
+                    f'unchanged repository rewrote: {d!r}',
+                    sig='not-idempotent:profile', classes=classes)
+        return ok(nontrivial=True, classes=classes)
+    finally:
+        harness.rmtree(root)
+
+
 PARTS = [
     Part('idempotence', run_idem, strategy=strat_idem,
          examples={'quick': 8000, 'thorough': 150000},
+         budget={'quick': 45, 'thorough': 600}),
+    Part('idempotence-profiles', run_prof, strategy=strat_prof,
+         examples={'quick': 2500, 'thorough': 40000},
          budget={'quick': 45, 'thorough': 600}),
     Part('canonical', run_canon, strategy=strat_canon,
          examples={'quick': 6000, 'thorough': 120000},
